@@ -219,8 +219,8 @@ AddFooter(nl) ==
   /\ ntok' = ntok + nl
   /\ UNCHANGED <<blocks, subs, notes, dirs, igs, top, closed>>
 
-\* no more blocks / statements
-Finish == /\ ~closed /\ blocks # <<>> /\ closed' = TRUE
+\* no more blocks / statements (an ignored block at the very end would be the terminator of the control file)
+Finish == /\ ~closed /\ blocks # <<>> /\ blocks[Len(blocks)].ty # "i" /\ closed' = TRUE
           /\ UNCHANGED <<blocks, subs, notes, dirs, igs, nons, top, ntok>>
 
 \* comment layouts offered to the generator: <<words, lines, dot form>> (a multi-line layout needs the dot form)
@@ -287,6 +287,10 @@ BlankSpans == \A i \in 1..Len(notes) : (notes[i].k = "I" /\ notes[i].cm.sh = "bl
 RECURSIVE TokRanges(_,_)
 TokRanges(q, lo) == q = <<>> \/ (Head(q).cm.t0 >= lo /\ TokRanges(Tail(q), Head(q).cm.t0 + Head(q).cm.nw))
 TokensUnique == TokRanges(notes, 0) /\ \A i \in 1..Len(notes) : notes[i].cm.t0 + notes[i].cm.nw <= ntok
+
+\* token numbering is irrelevant to well-formedness: a VIEW for larger model-checking configurations
+View == <<blocks, subs, [i \in 1..Len(notes) |-> [notes[i] EXCEPT !.cm.t0 = 0]], [i \in 1..Len(dirs) |-> [dirs[i] EXCEPT !.id = 0]],
+          igs, [i \in 1..Len(nons) |-> [nons[i] EXCEPT !.t0 = 0]], top, closed>>
 
 WellFormed == Tiles /\ BlocksOnSubs /\ StmtsOk /\ MRanges /\ Attached /\ IgnoreHasComment /\ OneEach /\ BlankSpans
               /\ TokensUnique
